@@ -38,7 +38,8 @@ Menu == <<
   List("lo", "a", "k", FALSE, <<Leaf("k", "a", Ty("string")),
         List("li", "a", "j", TRUE, <<Leaf("j", "a", Ty("int8")), Leaf("e2", "a", Ty("empty"))>>)>>),   \* 23
   Leaf("d18", "a", TyDec(18)),                                                        \* 24
-  LeafList("lid", "a", TyIdref("a:base-id"), TRUE)                                    \* 25
+  LeafList("lid", "a", TyIdref("a:base-id"), TRUE),                                   \* 25
+  Leaf("sp", "a", TyDigits)                                                           \* 26  string with pattern [0-9]+
 >>
 NMenu == Len(Menu)
 TopB == {22}
@@ -52,6 +53,7 @@ Schema(S) == Root(<<Cont("c", "a", FALSE, PickSeq(S, 1, FALSE))>> \o PickSeq(S, 
 RType(ty, mod) ==
   CASE ty.b = "decimal64" -> "type decimal64 { fraction-digits " \o ToString(ty.fd) \o "; } "
     [] ty.b = "enumeration" -> "type enumeration { enum one; enum two; } "
+    [] ty.b = "string" /\ ty.pat = "digits" -> "type string { pattern \"[0-9]+\"; } "
     [] ty.b = "identityref" -> "type identityref { base " \o (IF mod = "a" THEN "base-id" ELSE "a:base-id") \o "; } "
     [] OTHER -> "type " \o ty.b \o "; "
 RECURSIVE RNode(_), RNodes(_, _)
@@ -97,7 +99,7 @@ ValsOf(ty, mod, wide) ==
                                        ELSE <<"-0.001", "9223372036854775.807">>
     [] b = "decimal64" -> IF wide THEN <<"-9.223372036854775808", "9.223372036854775807", "0.000000000000000001", "1.5">>
                           ELSE <<"-9.223372036854775808", "1.5">>
-    [] b = "string" -> StrVals(wide)
+    [] b = "string" -> IF ty.pat = "digits" THEN <<"12", "007">> ELSE StrVals(wide)
     [] b = "boolean" -> <<"true", "false">>
     [] b = "enumeration" -> ty.en
     [] b = "identityref" -> IF mod = "a" THEN <<"loc-id", "b:for-id">> ELSE <<"for-id", "a:loc-id">>
@@ -148,8 +150,16 @@ FullTrees(S) == {t \in Trees(S, FALSE) : ItemCount(t) = Cardinality(S)}
 \* class (a fraction for an integer, out of range, a string, a boolean, null, an empty array or
 \* object), a member removed (a missing key among them), duplicated with another value, an
 \* unknown member added, an array element removed or repeated
+\* value spellings from the JSON grammar (RFC 8259 sections 3, 6, 7), whatever the encoders emit: numbers with
+\* fraction / exponent / sign / -0 / huge exponent that denote whole numbers or not, spellings that are no JSON
+\* numbers (leading zero, plus sign, bare point, empty exponent, hexadecimal), numbers and number-like strings
+\* where the mapping wants the other, true / false / null / [null] / arrays / objects in scalar position
 AltScalars == {JNum("1.7"), JNum("5"), JNum("-1"), JNum("300"), JNum("18446744073709551616"), JNum("0.5"),
-               JStr("x"), JStr("5"), JStr("1.7"), JStr("zz:loc-id"), JStr("a:loc-id"), JTrue, JNull, JArr(<< >>, TRUE), JObj(<< >>),
+               JNum("1e2"), JNum("100.0"), JNum("2.5e1"), JNum("-1E+3"), JNum("10e-1"), JNum("1.0000000000000000001"),
+               JNum("5.0"), JNum("-0"), JNum("0.0"), JNum("-0.0"), JNum("0e0"), JNum("1E0"), JNum("5e-1"), JNum("1e400"), JNum("12e0"),
+               JNum("007"), JNum("+5"), JNum(".5"), JNum("5."), JNum("1e"), JNum("0x10"), JNum("-"),
+               JStr("x"), JStr("5"), JStr("1.7"), JStr("1e2"), JStr("100.0"), JStr("+5"), JStr("007"), JStr("-0"),
+               JStr("zz:loc-id"), JStr("a:loc-id"), JTrue, JFalse, JNull, JArr(<< >>, TRUE), JObj(<< >>),
                JArr(<<JNum("5")>>, TRUE), JArr(<<JNull>>, TRUE), JStr("")}
 RECURSIVE DocMut(_)
 DocMut(v) ==
@@ -171,7 +181,7 @@ JMutants(doc) == {JToks(d) : d \in DocMut(doc)} \cup TokDrops(JToks(doc))
 
 \* the same for XML: text replaced, an element removed / repeated / repeated with another text,
 \* an unknown element added, a tag dropped, an end tag renamed
-AltTexts == {"1.7", "5", "-1", "300", "x", "", "true", "zz:loc-id", "18446744073709551616"}
+AltTexts == {"1.7", "5", "-1", "300", "x", "", "true", "zz:loc-id", "18446744073709551616", "1e2", "100.0"}
 RECURSIVE ElMut(_)
 ElMut(e) ==
   (IF e.kids = << >> THEN {[e EXCEPT !.text = x, !.q = NoQ] : x \in AltTexts \ {e.text}}
@@ -186,12 +196,42 @@ XTokDrops(ts) == {RemoveAt(ts, i) : i \in {j \in 1..Len(ts) : ts[j].c \in {"star
                  \cup {[ts EXCEPT ![i] = XEnd("zz")] : i \in {j \in 1..Len(ts) : ts[j].c = "end"}}
 XMutants(el) == {XToks(d) : d \in ElMut(el)} \cup XTokDrops(XToks(el))
 
+\* XML documents from the document grammar rather than from the encoders' output: at every leaf element
+\* of a document, element text x namespace declarations on the element and on its parent (XML Namespaces:
+\* prefix = text before the first colon, innermost declaration in scope): text equal to a declared prefix,
+\* prefix with empty local part, empty prefix, two colons, declared / undeclared / shadowed / foreign
+\* prefixes in front of names that are and are not identities, several declarations, and the element
+\* itself in the inherited or in another default namespace
+Decl(p, uri) == [p |-> p, uri |-> uri]
+NsDecls == { [own |-> << >>, anc |-> << >>],
+             [own |-> <<Decl("p", "urn:b")>>, anc |-> << >>],
+             [own |-> <<Decl("p", "urn:a")>>, anc |-> << >>],
+             [own |-> << >>, anc |-> <<Decl("p", "urn:b")>>],
+             [own |-> <<Decl("p", "urn:b")>>, anc |-> <<Decl("p", "urn:a")>>],
+             [own |-> <<Decl("p", "urn:zz")>>, anc |-> <<Decl("p", "urn:b")>>],
+             [own |-> <<Decl("q", "urn:a"), Decl("p", "urn:b")>>, anc |-> << >>],
+             [own |-> <<Decl("b", "urn:a")>>, anc |-> << >>] }
+NsTexts == {"p", "p:", ":x", ":", "p:q:r", "p:for-id", "p:loc-id", "p:base-id", "u:for-id", "for-id", "loc-id",
+            "b:for-id", "a:loc-id", "q", "q:loc-id", "p:5", "5", "b"}
+RECURSIVE XNsMut(_)
+XNsMut(e) ==
+  UNION { IF e.kids[i].kids = << >>
+          THEN {[e EXCEPT !.decl = d.anc, !.kids[i] = [e.kids[i] EXCEPT !.text = t, !.q = NoQ, !.decl = d.own]]
+                  : d \in NsDecls, t \in NsTexts}
+               \cup {[e EXCEPT !.kids[i] = [e.kids[i] EXCEPT !.text = t, !.q = NoQ, !.decl = d, !.ns = ns]]
+                       : d \in {<< >>, <<Decl("p", "urn:b")>>}, t \in {"loc-id", "p:for-id", "5", "x"}, ns \in {"", "urn:b", "urn:zz"}}
+          ELSE {[e EXCEPT !.kids[i] = x] : x \in XNsMut(e.kids[i])}
+          : i \in 1..Len(e.kids) }
+XNsMutants(el) == {XToks(d) : d \in XNsMut(el)}
+\* the full tree of a schema with the longest XML encoding
+BigTree(S) == CHOOSE t \in FullTrees(S) : \A u \in FullTrees(S) : Len(XToks(EncX(Schema(S), u))) <= Len(XToks(EncX(Schema(S), t)))
+
 \* ------------------------------------------------ alphabets for the totality runs
 \* schema of the totality runs
 FuzzItems == {1, 6, 7, 8, 10, 12, 13, 16, 20}
 JAlphabet == <<Tk("{", ""), Tk("}", ""), Tk("[", ""), Tk("]", ""), Tk(":", ""), Tk(",", ""),
                Tk("str", "a:c"), Tk("str", "i8"), Tk("str", "s"), Tk("str", "lu"), Tk("str", "k"), Tk("str", "e"),
-               Tk("str", "x"), Tk("num", "5"), Tk("num", "1.7"), Tk("null", ""), Tk("true", ""), Tk("raw", "x")>>
+               Tk("str", "x"), Tk("num", "5"), Tk("num", "1.7"), Tk("num", "1e2"), Tk("null", ""), Tk("true", ""), Tk("raw", "x")>>
 \* contexts: (prefix, suffix) token sequences around the enumerated class string
 JContexts == << [pre |-> << >>, suf |-> << >>],
                 [pre |-> <<Tk("{", ""), Tk("str", "a:c"), Tk(":", ""), Tk("{", "")>>, suf |-> <<Tk("}", ""), Tk("}", "")>>],
@@ -200,7 +240,7 @@ JContexts == << [pre |-> << >>, suf |-> << >>],
 XAlphabet == <<XStart("c", "urn:a", << >>), XEnd("c"), XStart("i8", "urn:a", << >>), XEnd("i8"), XStart("s", "urn:a", << >>), XEnd("s"),
                XStart("lu", "urn:a", << >>), XEnd("lu"), XStart("k", "urn:a", << >>), XEnd("k"), XStart("e", "urn:a", << >>), XEnd("e"),
                XStart("id", "urn:a", <<[p |-> "q", uri |-> "urn:b"]>>), XEnd("id"),
-               XText("5"), XText("1.7"), XText("x"), XText("q:for-id"), XRaw("{3C}")>>
+               XText("5"), XText("1.7"), XText("x"), XText("q:for-id"), XText("q"), XRaw("{3C}")>>
 XContexts == << [pre |-> << >>, suf |-> << >>],
                 [pre |-> <<XStart("root", "", << >>), XStart("c", "urn:a", << >>)>>, suf |-> <<XEnd("c"), XEnd("root")>>],
                 [pre |-> <<XStart("root", "", << >>), XStart("c", "urn:a", << >>), XStart("lu", "urn:a", << >>)>>,
